@@ -30,6 +30,19 @@ IsSeqLeaf(s) == s.k = "L" /\ s.t \in {"list", "tuple"}
 Empty == Dict(<<>>)
 Absent == [k |-> "A"]
 Val(t, n, c, h) == [d |-> [t |-> t, n |-> n], c |-> c, h |-> h, sub |-> ""]   \* sub: shape hint for the harness
+\* A flow value given as the Python object it is: a tuple or a list (kind) of items, each item data
+\* [t, n] or a context Dict(..).  lena.flow.get_data / get_context: the value is a (data, context) pair
+\* exactly when it is a tuple of two items whose second item is a dictionary; every other value -
+\* (1, 2), (1, "s"), (1, [0]), (1, None), (1,), (1, {..}, 2), [1, {..}] - is its own data and has no
+\* context.  The harness builds the object from the field raw; d, c, h follow from the rule here.
+D(t, n) == [t |-> t, n |-> n]
+IsCtxItem(x) == "k" \in DOMAIN x /\ x.k = "D"
+IsPairShape(kind, items) == kind = "tuple" /\ Len(items) = 2 /\ IsCtxItem(items[2])
+RawVal(kind, items) ==
+  LET pair == IsPairShape(kind, items) IN
+  [d |-> IF pair THEN items[1] ELSE D(kind, Len(items)),
+   c |-> IF pair THEN items[2] ELSE Empty,
+   h |-> pair, sub |-> "raw", raw |-> [kind |-> kind, items |-> items]]
 
 (***************************************************************************)
 (* Specifications (what the user writes).                                  *)
